@@ -62,7 +62,8 @@ RspFind(r) ==
   /\ svc \in {"find", "mwl"} /\ ~over /\ final = 0 /\ Correlated(r)
   /\ IF Pending(svc, r.status)
      THEN /\ nrsp < Len(items)                                   \* one response per yielded match, in order
-          /\ r.d = items[nrsp + 1].d /\ r.status = items[nrsp + 1].s /\ r.d # 0
+          /\ r.d = items[nrsp + 1].d /\ r.status = items[nrsp + 1].s     \* its identifier (0: a match without any attribute
+                                                                           \* has an empty encoding - nothing to carry)
           /\ nrsp' = nrsp + 1 /\ UNCHANGED final
      ELSE /\ nrsp = Len(items)                                   \* the final response comes after all matches
           /\ r.d = 0                                             \* and carries no identifier
